@@ -24,6 +24,17 @@ REPS = [("U.S.", "410", "113"), ("F.3d", "12", "345"), ("F. Supp. 2d", "5", "100
 PARS = [("S. Ct.", "93", "705"), ("L. Ed. 2d", "35", "147"), ("P.2d", "493", "880")]
 
 
+def mechanism(cl, ex, ob):
+    """abstract mechanism of a failing case (for known findings): the written antecedent is not a plain
+    capitalised word and the extracted antecedent guess is a proper suffix of it"""
+    import re
+    if cl in ("C01.antecedent", "C01.fullstart") and ex and ob and len(ex) == len(ob):
+        w, o = ex[0]["antecedent"], ob[0]["antecedent"]
+        if w and o and w != o and w.endswith(o) and not re.fullmatch(r"[A-Z][a-z]+", w):
+            return "antecedent-cut-at-punctuation-or-inner-capital"
+    return ""
+
+
 def conc_pool(rnd, courts, n):
     out = []
     for i in range(n):
@@ -161,7 +172,8 @@ def main(pid):
             vd.violation(cl, {"text": items[ix]["text"], "label": metas[ix]["label"], "shape": metas[ix]["shape"],
                               "expected": [{k: v for k, v in e.items() if k != "plaintiff_cp"} for e in exps[ix]],
                               "observed": [dict(o, plaintiff="".join(map(chr, o["plaintiff_cp"]))) for o in obs[ix]["obs"]]},
-                         {"clause": cl, "form": metas[ix]["shape"]["form"], "label": metas[ix]["label"]})
+                         {"clause": cl, "form": metas[ix]["shape"]["form"], "label": metas[ix]["label"],
+                          "mechanism": mechanism(cl, exps[ix], obs[ix]["obs"])})
     ev.sample({"text": items[0]["text"], "expected": {k: v for k, v in exps[0][0].items() if k not in ("plaintiff_cp",)}})
     ev.cov["traces_validated_against_impl"] = len(traces)
     ev.cov["evaluations"] = len(traces)
